@@ -48,6 +48,7 @@ def vals_coq(typ, values):
 # ------------------------------------------------------------------ component expressions
 BIN = {"+": "Add", "-": "Sub", "*": "Mul", "/": "Div", "=": "Eq", "<>": "Neq", ">": "Gt", ">=": "Ge", "<": "Lt", "<=": "Le",
        "and": "And", "or": "Or", "xor": "Xor", "||": "Concat"}
+SETOP = {"union": "OUnion", "intersect": "OIntersect", "setdiff": "OSetdiff", "symdiff": "OSymdiff"}
 UNF = {"abs": "Abs", "ceil": "Ceil", "floor": "Floor", "length": "Len", "trim": "Trim", "ltrim": "Ltrim", "rtrim": "Rtrim",
        "upper": "Upper", "lower": "Lower", "isnull": "IsNull", "not": "Not"}
 
@@ -55,8 +56,9 @@ UNF = {"abs": "Abs", "ceil": "Ceil", "floor": "Floor", "length": "Len", "trim": 
 class CG:
     """component-expression generator over a column environment {name: type}"""
 
-    def __init__(self, rng, cols: Dict[str, str], risky_div=False):
+    def __init__(self, rng, cols: Dict[str, str], risky_div=False, prefer=()):
         self.rng, self.cols, self.risky_div = rng, cols, risky_div
+        self.prefer = [n for n in prefer if n in cols]   # components created earlier in the same clause chain
         self.hist: Dict[str, int] = {}
 
     def note(self, k):
@@ -64,7 +66,44 @@ class CG:
 
     def col_of(self, typ):
         c = [n for n, t in self.cols.items() if t == typ]
+        p = [n for n in c if n in self.prefer]
+        if p and self.rng.random() < 0.75:
+            return self.rng.choice(p)
         return self.rng.choice(c) if c else None
+
+    def using(self, col, want_bool):
+        """an expression that certainly READS component `col`: a Boolean one (filter condition) or one of col's own type"""
+        r, t = self.rng, self.cols[col]
+        cc = f"(CCol {coq_string(col)})"
+        self.note("uses-created")
+        if want_bool:
+            if t in NUMERIC:
+                op = r.choice([">", ">=", "<", "<=", "=", "<>"])
+                lt, lq, _ = lit(r, t, allow_null=False)
+                e = (f"({col} {op} {lt})", f"(CBin {BIN[op]} {cc} (CLit {lq}))")
+            elif t == "String":
+                if r.random() < 0.5:
+                    lt, lq, _ = lit(r, t, allow_null=False)
+                    e = (f"({col} <> {lt})", f"(CBin Neq {cc} (CLit {lq}))")
+                else:
+                    e = (f"(length({col}) >= 1)", f"(CBin Ge (CUn Len {cc}) (CLit (VInt {coq_z(1)})))")
+            else:
+                e = r.choice([(col, cc), (f"(not {col})", f"(CUn Not {cc})"), (f"isnull({col})", f"(CUn IsNull {cc})")])
+            if r.random() < 0.3:
+                o = self.gen("Boolean", 1)
+                op = r.choice(["and", "or"])
+                e = (f"({e[0]} {op} {o[0]})", f"(CBin {BIN[op]} {e[1]} {o[1]})")
+            return e
+        if t in NUMERIC:
+            op = r.choice(["+", "-", "*"])
+            o = self.gen(t, 1)
+            return (f"({col} {op} {o[0]})", f"(CBin {BIN[op]} {cc} {o[1]})")
+        if t == "String":
+            o = self.gen("String", 1)
+            return (f"({col} || {o[0]})", f"(CBin Concat {cc} {o[1]})")
+        o = self.gen("Boolean", 1)
+        op = r.choice(["and", "or", "xor"])
+        return (f"({col} {op} {o[0]})", f"(CBin {BIN[op]} {cc} {o[1]})")
 
     def leaf(self, typ):
         c = self.col_of(typ)
@@ -218,24 +257,70 @@ class Shape:
         return dict(self.ids + self.ms)
 
 
-def gen_inputs(rng, n=3, measure_types=None):
-    """n input datasets; identifier sets equal or nested; rows 0-12 with controlled key overlap"""
+def _rows_for(rng, ids, ms, dense=False):
+    """datapoints for a structure: keys drawn from the universe of its identifiers (in the declared identifier order)"""
     import itertools
+    specs = {s[0]: s for s in ID_SPECS}
+    canon = [s for s in ID_SPECS if s[0] in [n for n, _ in ids]]
+    universe = list(itertools.product(*[s[2] for s in canon]))
+    cls = rng.choice(["some", "some", "most"] if dense else ["all", "none", "some", "some", "some"])
+    pk = 0.75 if cls == "most" else 0.5
+    keys = universe if cls == "all" else [] if cls == "none" else [k for k in universe if rng.random() < pk]
+    pos = {s[0]: i for i, s in enumerate(canon)}
+    rows = [([k[pos[n]] for n, _ in ids], [gen_value(rng, t) for _, t in ms]) for k in keys]
+    rng.shuffle(rows)
+    return rows
+
+
+def gen_inputs(rng, n=3, measure_types=None, family=None):
+    """n input datasets; identifier sets equal or nested; rows 0-12 with controlled key overlap.
+    family=None: independent random structures (the original stream).
+    family='mixed': as above, but a later dataset copies the structure of an earlier one half of the time (set operators need
+                    operands with the same components), sometimes declaring its columns in another order.
+    family='same': 2-3 datasets with ONE structure (mostly 2 identifiers), columns of the later ones possibly declared in another
+                   order, plus (half of the time) a dataset with the same measures and Id_1 only.
+    family='nest21': DS_1(Id_1,Id_2), DS_2(Id_1), DS_3(Id_1,Id_2) [+ DS_4(Id_1)] with the same numeric measures and several
+                   datapoints per Id_1 value — for nested dataset∘dataset operators whose inner LEFT operand has more identifiers."""
+    def measures(types, nm):
+        return [(f"Me_{j}", rng.choice(types)) for j in range(1, nm + 1)]
+
+    def permuted(ids, ms):
+        ids, ms = list(ids), list(ms)
+        if rng.random() < 0.5:
+            rng.shuffle(ids)
+            rng.shuffle(ms)
+        return ids, ms
     dss = {}
-    for i in range(1, n + 1):
-        nid = rng.choice([1, 2, 2])
+    if family == "same":
+        nid = rng.choice([1, 2, 2, 2])
         ids = [(s[0], s[1]) for s in ID_SPECS[:nid]]
-        nm = rng.choice([1, 1, 2, 3])
-        ms = []
-        for j in range(1, nm + 1):
-            t = rng.choice(measure_types or BASIC)
-            ms.append((f"Me_{j}", t))
-        universe = list(itertools.product(*[s[2] for s in ID_SPECS[:nid]]))
-        cls = rng.choice(["all", "none", "some", "some", "some"])
-        keys = universe if cls == "all" else [] if cls == "none" else [k for k in universe if rng.random() < 0.5]
-        rows = [(list(k), [gen_value(rng, t) for _, t in ms]) for k in keys]
-        rng.shuffle(rows)
-        dss[f"DS_{i}"] = {"shape": Shape(ids, ms), "rows": rows}
+        ms = measures(measure_types or BASIC, rng.choice([1, 1, 2]))
+        k = rng.choice([2, 3])
+        for i in range(1, k + 1):
+            pi, pm = (ids, ms) if i == 1 else permuted(ids, ms)
+            dss[f"DS_{i}"] = {"shape": Shape(pi, pm), "rows": _rows_for(rng, pi, pm, dense=True)}
+        if nid == 2 and rng.random() < 0.5:
+            dss[f"DS_{k + 1}"] = {"shape": Shape(ids[:1], ms), "rows": _rows_for(rng, ids[:1], ms, dense=True)}
+        return dss
+    if family == "nest21":
+        ids2 = [(s[0], s[1]) for s in ID_SPECS[:2]]
+        mt = rng.choice([["Integer"], ["Number"], ["Integer", "Number"]])
+        ms = measures(mt, rng.choice([1, 1, 2]))
+        for i, ids in enumerate([ids2, ids2[:1], ids2] + ([ids2[:1]] if rng.random() < 0.3 else []), start=1):
+            pm = list(ms)
+            if i > 1 and rng.random() < 0.3:
+                rng.shuffle(pm)
+            dss[f"DS_{i}"] = {"shape": Shape(ids, pm), "rows": _rows_for(rng, ids, pm, dense=True)}
+        return dss
+    for i in range(1, n + 1):
+        if family == "mixed" and dss and rng.random() < 0.5:
+            src = dss[rng.choice(list(dss))]["shape"]
+            ids, ms = permuted(src.ids, src.ms) if rng.random() < 0.4 else (list(src.ids), list(src.ms))
+        else:
+            nid = rng.choice([1, 2, 2])
+            ids = [(s[0], s[1]) for s in ID_SPECS[:nid]]
+            ms = measures(measure_types or BASIC, rng.choice([1, 1, 2, 3]))
+        dss[f"DS_{i}"] = {"shape": Shape(ids, ms), "rows": _rows_for(rng, ids, ms)}
     return dss
 
 
@@ -263,9 +348,33 @@ def inputs_coq(dss) -> str:
     return coq_list(items)
 
 
+_VALIDATORS: Dict[int, Any] = {}
+
+
+def _validate_cached(instance, schema, *a, **k):
+    """jsonschema.validate without re-checking the (constant) schema against its meta-schema on every call: the engine validates
+    the input structures with jsonschema.validate, 40 of whose 46 ms are that self-check.  Used ONLY for the generator's structure
+    queries (shape_of), never while a case under test runs."""
+    import jsonschema
+    v = _VALIDATORS.get(id(schema))
+    if v is None:
+        cls = jsonschema.validators.validator_for(schema)
+        cls.check_schema(schema)
+        v = _VALIDATORS[id(schema)] = (cls(schema), schema)
+    err = jsonschema.exceptions.best_match(v[0].iter_errors(instance))
+    if err is not None:
+        raise err
+
+
 def shape_of(script_expr: str, structs, prefix: str = "") -> Optional[Shape]:
     """structure the ENGINE's semantic analysis gives to `expr` (None when it rejects it)"""
-    r = engine.semantic_case(f"{prefix}DS_t <- {script_expr};", structs)
+    import jsonschema
+    saved = jsonschema.validate
+    jsonschema.validate = _validate_cached
+    try:
+        r = engine.semantic_case(f"{prefix}DS_t <- {script_expr};", structs)
+    finally:
+        jsonschema.validate = saved
     if not r["ok"] or "DS_t" not in r["datasets"]:
         return None
     comps = r["datasets"]["DS_t"]
@@ -279,6 +388,9 @@ class DG:
         self.rng, self.dss, self.structs, self.risky_div = rng, dss, structs, risky_div
         self.hist: Dict[str, int] = {}
         self.rejected = 0
+        self.renaming_ops: List[str] = []      # text of every node whose single measure the engine renamed (bool_var, int_var…)
+        self.unions: List[Tuple[str, Shape]] = []  # text + structure of every union node built
+        self.fresh_out: Dict[str, str] = {}    # components created so far by the clause chain being built (name -> type)
 
     def note(self, k):
         self.hist[k] = self.hist.get(k, 0) + 1
@@ -287,61 +399,91 @@ class DG:
         n = self.rng.choice(list(self.dss))
         return n, f"(DVar {coq_string(n)})", self.dss[n]["shape"]
 
-    def with_shape(self, vtl, coq, prev: Shape, allow_rename=True):
-        """asks the engine for the shape; if the engine renamed the single measure, mirror it with DRename in the model"""
+    def with_shape(self, vtl, coq, prev: Shape, allow_rename=True, free=False):
+        """asks the engine for the shape; if the engine renamed the single measure, mirror it with DRename in the model.
+        free=True (clauses that change the component list on purpose: calc of a new component, keep, drop, rename): the engine's
+        structure is taken as it is — the model computes its own and `exprk.compare` checks the two against each other"""
         sh = shape_of(vtl, self.structs, getattr(self, "prefix", ""))
         if sh is None:
             self.rejected += 1
             return None
+        if free:
+            return vtl, coq, sh
         pm, nm = [n for n, _ in prev.ms], [n for n, _ in sh.ms]
         if pm != nm:
             if allow_rename and len(pm) == 1 and len(nm) == 1:
                 coq = f"(DRename {coq} [({coq_string(pm[0])}, {coq_string(nm[0])})])"
+                self.renaming_ops.append(vtl)
             elif sorted(pm) != sorted(nm):
                 self.rejected += 1
                 return None
         return vtl, coq, sh
 
-    def clause(self, base):
+    def clause(self, base, fresh: Optional[Dict[str, str]] = None, force_kind: Optional[str] = None, force_use: bool = False):
+        """one clause applied to `base`.  `fresh` = components created earlier in the SAME chain (by calc / rename): later clauses
+        are biased towards them (rename it, keep it, filter on it, calc from it), since a chain in one statement must carry a
+        component created on the way under whatever name it then has.  Sets self.fresh_out for the next clause of the chain."""
         vtl, coq, sh = base
         r = self.rng
-        kind = r.choice(["filter", "filter", "calc", "calc", "keep", "drop", "rename", "sub"])
-        cg = CG(r, sh.cols(), self.risky_div)
+        fresh = {n: t for n, t in (fresh or {}).items() if n in dict(sh.ms)}
+        if force_kind:
+            kind = force_kind
+        elif fresh and r.random() < 0.8:
+            kind = r.choice(["rename", "rename", "rename", "keep", "filter", "calc", "calc", "sub", "drop"])
+        else:
+            kind = r.choice(["filter", "filter", "calc", "calc", "keep", "drop", "rename", "sub"])
+        cg = CG(r, sh.cols(), self.risky_div, prefer=list(fresh))
+        use = r.choice(list(fresh)) if fresh and (force_use or r.random() < 0.8) else None
         out = None
+        nf = dict(fresh)
         if kind == "filter":
-            c = cg.gen("Boolean", r.choice([1, 2, 3]))
+            c = cg.using(use, True) if use else cg.gen("Boolean", r.choice([1, 2, 3]))
             out = self.with_shape(f"{vtl}[filter {c[0]}]", f"(DFilter {coq} {c[1]})", sh)
         elif kind == "calc":
             defs = []
             names = [n for n, _ in sh.ms] + ["Me_9", "Me_8"]
-            for _ in range(r.choice([1, 1, 2])):
+            if not fresh and r.random() < 0.5:
+                names = [n for n in ("Me_9", "Me_8") if n not in dict(sh.ms)] or names   # a NEW component
+            for i in range(r.choice([1, 1, 2])):
                 tgt = r.choice(names)
                 if tgt in [d[0] for d in defs]:
                     continue
-                e = cg.gen(r.choice(BASIC), r.choice([1, 2, 3]))
+                e = cg.using(use, False) if (use and i == 0) else cg.gen(r.choice(BASIC), r.choice([1, 2, 3]))
                 defs.append((tgt, e))
             vt = ", ".join(f"{n} := {e[0]}" for n, e in defs)
             cq = coq_list([f"({coq_string(n)}, {e[1]})" for n, e in defs])
-            out = self.with_shape(f"{vtl}[calc {vt}]", f"(DCalc {coq} {cq})", sh, allow_rename=False)
-            if out is not None:  # calc may append: accept any superset of names
-                pass
+            out = self.with_shape(f"{vtl}[calc {vt}]", f"(DCalc {coq} {cq})", sh, free=True)
+            if out is not None:
+                for n, _ in defs:
+                    nf[n] = dict(out[2].ms).get(n, "Number")
         elif kind in ("keep", "drop"):
             if not sh.ms:
                 return None
             k = r.randrange(1, len(sh.ms) + 1)
             sel = r.sample([n for n, _ in sh.ms], k)
+            if fresh and kind == "keep":
+                sel = sorted(set(sel) | ({use} if use else set(fresh)))
+            if fresh and kind == "drop" and r.random() < 0.7:
+                sel = [n for n in sel if n not in fresh]
+                if not sel:
+                    return None
             if kind == "drop" and len(sel) == len(sh.ms):
                 sel = sel[:-1]
                 if not sel:
                     return None
             nd = "DKeep" if kind == "keep" else "DDrop"
-            out = self.with_shape(f"{vtl}[{kind} {', '.join(sel)}]", f"({nd} {coq} {coq_list([coq_string(s) for s in sel])})", sh, allow_rename=False)
+            out = self.with_shape(f"{vtl}[{kind} {', '.join(sel)}]", f"({nd} {coq} {coq_list([coq_string(s) for s in sel])})", sh, free=True)
+            nf = {n: t for n, t in nf.items() if (n in sel) == (kind == "keep")}
         elif kind == "rename":
             if not sh.ms:
                 return None
-            old = r.choice([n for n, _ in sh.ms])
-            new = r.choice(["Me_7", "Renamed", "x1"])
-            out = self.with_shape(f"{vtl}[rename {old} to {new}]", f"(DRename {coq} [({coq_string(old)}, {coq_string(new)})])", sh, allow_rename=False)
+            old = use or r.choice([n for n, _ in sh.ms])
+            cands = [n for n in ("Me_7", "Renamed", "x1") if n not in sh.cols()] or ["Me_7"]
+            new = r.choice(cands)
+            out = self.with_shape(f"{vtl}[rename {old} to {new}]", f"(DRename {coq} [({coq_string(old)}, {coq_string(new)})])", sh, free=True)
+            if out is not None:
+                nf.pop(old, None)
+                nf[new] = dict(out[2].ms).get(new, dict(sh.ms).get(old, "Number"))
         elif kind == "sub":
             if len(sh.ids) < 2:
                 return None
@@ -354,9 +496,24 @@ class DG:
             out = self.with_shape(f"{vtl}[sub {idn} = {vt}]", f"(DSub {coq} [({coq_string(idn)}, {V.to_val(v, idt)})])", sh, allow_rename=False)
         if out is not None:
             self.note(kind)
+            if fresh:
+                self.note("chain:" + kind + "-after-create")
+            self.fresh_out = nf
             for k, v in cg.hist.items():
                 self.hist["c:" + k] = self.hist.get("c:" + k, 0) + v
         return out
+
+    def chain(self, base, n, first_kind=None):
+        """a chain of up to n clauses in ONE statement, later clauses biased towards components created earlier in the chain"""
+        out, fresh = base, {}
+        for i in range(n):
+            nxt = self.clause(out, fresh, force_kind=first_kind if i == 0 else None)
+            if nxt is None:
+                if i == 0 and first_kind:
+                    return None
+                break
+            out, fresh = nxt, self.fresh_out
+        return None if out is base else out
 
     def elementwise(self, base):
         """unary / dataset∘scalar / parameterised operator applied to all measures"""
@@ -456,6 +613,83 @@ class DG:
             self.note("dsds:" + op)
         return out
 
+    # ---------------------------------------------------------------- set operators
+    @staticmethod
+    def same_struct(a: Shape, b: Shape) -> bool:
+        return sorted(a.ids) == sorted(b.ids) and sorted(a.ms) == sorted(b.ms) and bool(a.ids)
+
+    def setop(self, operands, op=None):
+        """union / intersect / setdiff / symdiff of 2-3 structurally equal operands; n-ary = left-nested DSet (Proofs/SetOpsP.v)"""
+        r = self.rng
+        op = op or r.choice(["union", "intersect", "setdiff", "symdiff"])
+        if op in ("setdiff", "symdiff"):
+            operands = operands[:2]
+        if len(operands) < 2:
+            return None
+        s0 = operands[0][2]
+        if any(not self.same_struct(s0, o[2]) for o in operands[1:]):
+            return None
+        vtl = f"{op}({', '.join(o[0] for o in operands)})"
+        coq = operands[0][1]
+        for o in operands[1:]:
+            coq = f"(DSet {SETOP[op]} {coq} {o[1]})"
+        out = self.with_shape(vtl, coq, s0, allow_rename=False)
+        if out is not None:
+            self.note(f"set:{op}" + (":3" if len(operands) == 3 else ""))
+            if [n for n, _ in s0.ids] != [n for n, _ in operands[1][2].ids] or [n for n, _ in s0.ms] != [n for n, _ in operands[1][2].ms]:
+                self.note("set:columns-in-another-order")
+            if op == "union":
+                self.unions.append((out[0], out[2]))
+        return out
+
+    def operand_like(self, base, pool):
+        """an operand with the structure of `base`: another dataset of `pool` (list of (vtl, coq, Shape)) as it is, or under a
+        structure-preserving clause / element-wise operator, or a dataset∘dataset result, or `base` itself filtered"""
+        r = self.rng
+        sh = base[2]
+        cands = [x for x in pool if self.same_struct(sh, x[2])]
+        for _ in range(4):
+            how = r.choice(["plain", "plain", "filter", "calc", "elem", "binary", "self-filter"])
+            src = r.choice(cands) if cands else base
+            if how == "self-filter" or not cands:
+                src, how = base, "filter"
+            if how == "plain":
+                out = src
+            elif how == "filter":
+                out = self.clause(src, force_kind="filter")
+            elif how == "calc":   # overwrite an existing measure: names unchanged
+                m, t = r.choice(src[2].ms) if src[2].ms else (None, None)
+                if m is None:
+                    continue
+                cg = CG(r, src[2].cols(), self.risky_div)
+                e = cg.gen(t, r.choice([1, 2]))
+                out = self.with_shape(f"{src[0]}[calc {m} := {e[0]}]", f"(DCalc {src[1]} [({coq_string(m)}, {e[1]})])", src[2], allow_rename=False)
+                if out is not None:
+                    self.note("calc")
+            elif how == "elem":
+                out = self.elementwise(src)
+            else:
+                other = r.choice(cands) if cands else src
+                out = self.binary(src, other)
+            if out is not None and self.same_struct(sh, out[2]) and sorted(sh.ms) == sorted(out[2].ms):
+                return out
+        return None
+
+    def gen_setop(self, pool, base=None):
+        r = self.rng
+        base = base or r.choice(pool)
+        ops = [base]
+        for _ in range(r.choice([1, 1, 2])):
+            o = self.operand_like(base, [x for x in pool if x[0] != base[0]] or pool)
+            if o is None:
+                break
+            ops.append(o)
+        if len(ops) < 2:
+            return None
+        if r.random() < 0.3:
+            ops[0], ops[1] = ops[1], ops[0]
+        return self.setop(ops)
+
     def gen_flat(self, leaves):
         """one statement: ONE dataset-level operator (or a clause chain) over named datasets (inputs / earlier results)"""
         r = self.rng
@@ -464,19 +698,15 @@ class DG:
             n = r.choice(list(leaves))
             return n, f"(DVar {coq_string(n)})", leaves[n]
         for _ in range(8):
-            k = r.choice(getattr(self, "kinds", ["clause", "clause", "elem", "elem", "binary", "binary"]))
+            k = r.choice(getattr(self, "kinds", ["clause", "clause", "elem", "elem", "binary", "binary", "setop"]))
             base = leaf()
             if k == "clause":
-                out = base
-                for _ in range(r.choice([1, 1, 2, 3])):
-                    nxt = self.clause(out)
-                    if nxt is None:
-                        break
-                    out = nxt
-                if out is base:
-                    out = None
+                out = self.chain(base, r.choice([1, 1, 2, 2, 3, 3, 4]), first_kind=("calc" if r.random() < 0.35 else None))
             elif k == "elem":
                 out = self.elementwise(base)
+            elif k == "setop":
+                pool = [(n, f"(DVar {coq_string(n)})", sh) for n, sh in leaves.items()]
+                out = self.gen_setop(pool, base)
             else:
                 out = self.binary(base, leaf())
             if out is not None:
@@ -488,17 +718,115 @@ class DG:
         if depth <= 0:
             return self.leaf()
         for _ in range(6):
-            k = r.choice(["clause", "clause", "elem", "elem", "binary", "binary"])
+            k = r.choice(getattr(self, "nested_kinds", ["clause", "clause", "elem", "elem", "binary", "binary", "setop"]))
             base = self.gen(depth - 1)
             if base is None:
                 continue
             if k == "clause":
-                out = self.clause(base)
+                out = self.chain(base, r.choice([1, 1, 2, 3]))
             elif k == "elem":
                 out = self.elementwise(base)
+            elif k == "setop":
+                pool = [(n, f"(DVar {coq_string(n)})", d["shape"]) for n, d in self.dss.items()]
+                out = self.gen_setop(pool, base)
+                if out is not None and r.random() < 0.5:   # a set operator under something that regroups / drops an identifier
+                    nxt = self.chain(out, r.choice([1, 2]), first_kind=("sub" if len(out[2].ids) > 1 and r.random() < 0.6 else None))
+                    out = nxt or out
             else:
                 other = self.gen(r.choice([0, 0, depth - 1]))
                 out = self.binary(base, other) if other is not None else None
             if out is not None:
                 return out
+        return None
+
+    # ---------------------------------------------------------------- directed single-statement templates
+    def L(self, n):
+        return n, f"(DVar {coq_string(n)})", self.dss[n]["shape"]
+
+    def directed(self, family):
+        """one statement of a family the random streams reach too rarely (the inputs come from gen_inputs(family=…)):
+        'nest21'  (DS_a(Id_1,Id_2) ∘ DS_b(Id_1)) used as an operand of another dataset∘dataset operator (either side), optionally
+                  under / over an element-wise operator or a clause;
+        'setctx'  a set operator used inside the statement: under sub / filter+calc / keep…, as an operand of a dataset∘dataset
+                  operator, of an element-wise operator, of another set operator; operands that are clause / operator results;
+        'chain'   a clause chain that creates a component (calc / rename) and then renames, keeps, filters on or computes from it."""
+        r = self.rng
+        names = list(self.dss)
+        if family == "nest21":
+            two = [n for n in names if len(self.dss[n]["shape"].ids) == 2]
+            one = [n for n in names if len(self.dss[n]["shape"].ids) == 1]
+            if len(two) < 2 or not one:
+                return None
+            a, c = r.sample(two, 2) if r.random() < 0.8 else (two[0], two[0])
+            b = r.choice(one)
+            inner = self.binary(self.L(a), self.L(b)) if r.random() < 0.75 else self.binary(self.L(b), self.L(a))
+            if inner is None:
+                return None
+            if r.random() < 0.2:
+                inner = self.elementwise(inner) or inner
+            third = self.L(c)
+            if r.random() < 0.25:
+                third = self.clause(third, force_kind=r.choice(["filter", "calc"])) or third
+            out = self.binary(inner, third) if r.random() < 0.5 else self.binary(third, inner)
+            if out is None:
+                return None
+            if r.random() < 0.25:
+                out = self.binary(out, self.L(r.choice(names))) or out
+            elif r.random() < 0.2:
+                out = self.chain(out, 1) or out
+            self.note("directed:nest21")
+            return out
+        if family == "setctx":
+            pool = [self.L(n) for n in names]
+            full = [x for x in pool if len(x[2].ids) == max(len(y[2].ids) for y in pool)]
+            base = r.choice(full)
+            so = self.gen_setop(full, base)
+            if so is None:
+                return None
+            how = r.choice(["sub", "sub", "sub", "filter-calc", "chain", "binary", "binary", "elem", "setop", "setop-sub"])
+            out = None
+            if how in ("sub", "setop-sub") and len(so[2].ids) < 2:
+                how = "chain"
+            if how == "sub":
+                out = self.chain(so, r.choice([1, 1, 2]), first_kind="sub")
+            elif how == "filter-calc":
+                out = self.chain(so, r.choice([2, 3]), first_kind="filter")
+            elif how == "chain":
+                out = self.chain(so, r.choice([1, 2, 3]))
+            elif how == "binary":
+                other = r.choice(pool)
+                out = self.binary(so, other) if r.random() < 0.5 else self.binary(other, so)
+            elif how == "elem":
+                out = self.elementwise(so)
+            else:
+                outer = self.gen_setop(full, so)
+                out = outer
+                if outer is not None and how == "setop-sub":
+                    out = self.chain(outer, 1, first_kind="sub") or outer
+            if out is None:
+                return None
+            self.note("directed:setctx:" + how)
+            return out
+        if family == "chain":
+            base = self.L(r.choice(names))
+            if r.random() < 0.2:
+                base = self.binary(base, self.L(r.choice(names))) or self.elementwise(base) or base
+            out, fresh = base, {}
+            first = self.clause(out, force_kind=r.choice(["calc", "calc", "calc", "rename"]))
+            if first is None:
+                return None
+            out, fresh = first, self.fresh_out
+            for _ in range(r.choice([0, 1, 1, 2])):
+                nxt = self.clause(out, fresh)
+                if nxt is None:
+                    break
+                out, fresh = nxt, self.fresh_out
+            if fresh and r.random() < 0.6:   # the created component leaves the statement under another name
+                nxt = self.clause(out, fresh, force_kind="rename", force_use=True)
+                if nxt is not None:
+                    out, fresh = nxt, self.fresh_out
+            if out is first:
+                return None
+            self.note("directed:chain")
+            return out
         return None
